@@ -309,4 +309,19 @@ theorem C09_conc_full_fails :
     holdsOnConc [(.write [([107], [cv 10])], .ok)] lostWriteHistory = false ∧
     lostWriteRacingDelete [(.write [([107], [cv 10])], .ok)] lostWriteHistory = true := by decide
 
+/-- a recorded history of the shape observed on the real cache (corpus case `w-vs-d-size`):
+    a write races a range delete of its key, the contents are linearizable, but the
+    `Snapshot` that follows reports 49 bytes for 33 held.  The oracle accepts the
+    CONTENT and reports the size under the known-finding signature. -/
+def sizeResidueHistory : List Call :=
+  [{ thread := 0, index := 0, op := .write [([107], [cv 100])], inv := 0, ret := 3, obs := .ok },
+   { thread := 1, index := 0, op := .delrange [[107]] 50 60, inv := 1, ret := 2, obs := .ok },
+   { thread := 2, index := 0, op := .snapshot, inv := 4, ret := 5, obs := .snap 49 1 }]
+
+set_option maxRecDepth 100000 in
+theorem C09_conc_size_residue :
+    holdsOnConc [(.write [([107], [cv 10])], .ok)] sizeResidueHistory = true ∧
+    sizeResidueRacingDelete [(.write [([107], [cv 10])], .ok)] sizeResidueHistory = true ∧
+    lostWriteRacingDelete [(.write [([107], [cv 10])], .ok)] sizeResidueHistory = false := by decide
+
 end Influx.Props.C09
